@@ -1625,3 +1625,33 @@ def iterable_param_once(chk, repo, rid, qual):
                "(a header with no records)", key=f"{f.qual}::oneshot::{a.arg}", fn=f.qual)
     if not n_inst:
         chk.undecided(rid, f"{f.name}: Iterable parameters", f.where, 'no parameter annotated Iterable / Iterator', key=f"{f.qual}::oneshot", fn=f.qual)
+
+
+def no_symbol_keys(chk, repo, rid, prefixes):
+    """R-KEYS: gene SYMBOLS (`gene_name`) are display names, not identifiers - several genes share one (PAR_Y copies, Y_RNA, a GTF
+    without gene_name gives '' for every gene).  No mapping in the parsers / their CLIs is indexed, looked up or membership-tested
+    with `<x>.gene_name`; caches are keyed by gene_id / transcript_id.  Expected count on the reference tree: zero; the matcher is
+    exercised on a built-in positive example on every run."""
+    def hits(tree):
+        out = []
+        for n in ast.walk(tree):
+            key = None
+            if isinstance(n, ast.Subscript) and not isinstance(n.slice, ast.Slice):
+                key = n.slice
+            elif isinstance(n, ast.Call) and isinstance(n.func, ast.Attribute) and n.func.attr in ('get', 'setdefault', 'pop') and n.args:
+                key = n.args[0]
+            elif isinstance(n, ast.Compare) and len(n.ops) == 1 and isinstance(n.ops[0], (ast.In, ast.NotIn)):
+                key = n.left
+            if key is not None and any(isinstance(x, ast.Attribute) and x.attr == 'gene_name' for x in ast.walk(key)):
+                out.append(n)
+        return out
+    chk.rule(rid, 'R-KEYS: no mapping is keyed by a gene symbol (gene_name); identifiers key the caches', 0)
+    probe = ast.parse("def f(c, g):\n    if g.gene_name in c:\n        return c[g.gene_name]\n    return c.get(g.gene_name)")
+    if len(hits(probe)) != 3:
+        raise AnalysisError(f"rule {rid}: built-in example of the symbol-key matcher no longer behaves as expected")
+    for f in repo.funcs_in(*prefixes):
+        for n in hits(f.node):
+            chk.ob(rid, f"{f.qual}: `{unparse(n)[:50]}` is not keyed by a gene symbol", repo.loc(f, n), False,
+                   f"`{unparse(n)[:70]}` uses a gene symbol as a mapping key: genes that share a symbol (PAR_Y copies, repeated names, '' when the GTF has no gene_name) collide - "
+                   "a later gene receives what was cached for the first one", key=f"{f.qual}::symbol-key", fn=f.qual)
+        chk.functions.add(f.qual)
